@@ -175,6 +175,18 @@ example : AllGood {} [] [] [.svc svcA, .node nodeK1', .slice s1nr', .pod p1pendi
       .pod p1notReady, .pod p1bound, .slice s1] = viewCold [.node nodeK1', .svc svcA, .pod p1bound, .slice s1] := by
   decide +kernel
 
+/-- only the pod informer lags: the slice (already with the pod's address, ready) is handled while the store still
+    shows the pod Pending, without IP and node - it finds the pod by name, nothing is parked; then the pod is bound
+    to a node (that update replays the slices that refer to it: fix ab6ec60), gets its IP, turns ready.  A good
+    history, nothing stale or waiting, and the endpoint has the node and its locality like the cold start's. -/
+def opsLag : List Op := [.svc svcA, .node nodeK1', .pod p1pending, .slice s1, .pod { p1pending with node := "k1" },
+  .pod p1notReady, .pod p1bound]
+
+example : AllGood {} [] [] opsLag ∧ staleRun {} [] [] opsLag = [] ∧ waitRun {} [] [] opsLag = [] ∧
+    viewAfter opsLag = viewCold [.node nodeK1', .svc svcA, .pod p1bound, .slice s1] ∧
+    (viewAfter opsLag).map (·.eps.map (fun e => (e.node, e.locality))) = some [("k1", "r1/z1/")] := by
+  decide +kernel
+
 /-- the pod's IP changes while it is ready: `addPod` moves the key in `podsByIP` / `ipByPods` -/
 example : AllGood {} [] [] [.svc svcA, .pod p1, .pod { p1 with ip := "10.0.0.9" }] ∧
     (run {} [.svc svcA, .pod p1, .pod { p1 with ip := "10.0.0.9" }]).c.byIP = [("10.0.0.9", ["n1/p1"])] ∧
@@ -299,6 +311,18 @@ theorem accounts_kept_witness :
     (viewAfter [.svc svcA, .pod p1, .slice s1, .slice (sliceOf "a-s1" [])]).map (fun v => (v.eps, v.sas)) =
       some ([], ["spiffe://cluster.local/ns/n1/sa/sa1"]) ∧
     (viewCold [.svc svcA, .pod p1, .slice (sliceOf "a-s1" [])]).map (fun v => (v.eps, v.sas)) = some ([], []) := by
+  decide +kernel
+
+/-- ... and this history lies INSIDE the proved class (every step good, nothing stale or waiting): the conclusion
+    `ViewAgree` deliberately says nothing about the service accounts of a hostname whose endpoint list is empty - that is
+    exactly the known finding `accounts-kept-after-endpoints-removed`, not something the theorems rule out -/
+example : AllGood {} [] [] [.svc svcA, .pod p1, .slice s1, .slice (sliceOf "a-s1" [])] ∧
+    staleRun {} [] [] [.svc svcA, .pod p1, .slice s1, .slice (sliceOf "a-s1" [])] = [] ∧
+    waitRun {} [] [] [.svc svcA, .pod p1, .slice s1, .slice (sliceOf "a-s1" [])] = [] ∧
+    ViewAgree (viewAfter [.svc svcA, .pod p1, .slice s1, .slice (sliceOf "a-s1" [])])
+      (viewCold [.svc svcA, .pod p1, .slice (sliceOf "a-s1" [])]) ∧
+    viewAfter [.svc svcA, .pod p1, .slice s1, .slice (sliceOf "a-s1" [])] ≠
+      viewCold [.svc svcA, .pod p1, .slice (sliceOf "a-s1" [])] := by
   decide +kernel
 
 /-- `needResync` can keep a registration nothing waits for: the slice is updated so that the waiting
